@@ -133,7 +133,20 @@ def run(ctx):
         h.add(ec.Step('build', engine.build_step(j=1, k=1, sched=[0] * 4, dry=1), g=_c.deepcopy(g), sources=dict(h.sources), targets=[], opts=dict(j=1, k=1, dry=1)))
         h.add(ec.Step('build', engine.build_step(j=1, k=1, sched=[0] * 4), g=_c.deepcopy(g), sources=dict(h.sources), targets=[], opts=dict(j=1, k=1)))
         probes.append(h)
-    hists += probes
+    # a dry run that aborts (an output directory cannot be created) must not clean up anything either
+    for i in range(10):
+        g = engine.Graph(); g.sources = {'s': 'x', 'blocker': 'i am a file'}
+        for k in range(3):
+            e = engine.Edge(k); e.outs = ['a%d' % k]; e.exp = ['s']; e.depfile = 'a%d.d' % k; e.hidden = []; g.edges.append(e)
+        z = engine.Edge(3); z.outs = ['blocker/sub/z']; z.exp = ['s']; g.edges.append(z)
+        if i % 2: g.edges.reverse()
+        h = ec.Hist('C19_abort%d' % i, g)
+        h.build(rnd, ['a0', 'a1', 'a2'], j=1, k=1, sched=[0] * 4)
+        h.edit('s', 'x2')
+        h.add(ec.Step('build', engine.build_step(j=1, k=1, sched=[0] * 4, dry=1), g=_c.deepcopy(g), sources=dict(h.sources), targets=[], opts=dict(j=1, k=1, dry=1)))
+        h.add(ec.Step('build', engine.build_step(j=1, k=1, sched=[0] * 4, targets=['a0', 'a1', 'a2']), g=_c.deepcopy(g), sources=dict(h.sources), targets=['a0', 'a1', 'a2'], opts=dict(j=1, k=1)))
+        probes.append(h)
+    hists += probes[20:]
     rc, tr, err, out = ec.run_hists(hists)
     nd = 0
     for h in hists:
@@ -156,7 +169,7 @@ def run(ctx):
                 ctx.known_finding('id=dry-run-touches-tree ' + txt)
             else: ctx.violation('dry-run-disturbs', h.text(), txt)
         restat = any(s2.g.eff_restat(e) for e in s2.g.edges)
-        if b2.exit == 0:
+        if b2.exit == 0 and b1.exit == 0:
             if not set(b2.started) <= set(dry_started):
                 ctx.violation('dry-run-prediction', h.text(), '%s: the real build ran %s which the dry run did not list (%s)' % (h.sid, sorted(set(b2.started) - set(dry_started)), sorted(dry_started)))
             elif not restat and sorted(b2.started) != sorted(dry_started):
